@@ -62,26 +62,28 @@ def conflict_signal(ctx, crate, crs, tag):
         # the Option tested is `conflicting_clauses.into_iter().next()` of this encode's result
         handled = None
         for c in cs:
-            if c.kind != "discr" or c.adt != "std::option::Option" or not c.src or c.src["k"] != "call":
+            # a test on the encode result: `into_iter().next()` is Some / `is_empty()` is false / `first()` is Some ...
+            nonempty_t = None
+            src_op = None
+            if c.kind == "discr" and c.adt == "std::option::Option" and c.src and c.src["k"] == "call" and \
+                    c.src["t"]["f"]["name"] in ("next", "first", "last", "pop"):
+                nonempty_t, src_op = c.target("Some"), c.src["t"]["args"][0]
+            elif c.kind == "bool" and c.src and c.src.get("k") == "call" and c.src["t"]["f"]["name"] == "is_empty":
+                nonempty_t, src_op = c.target(False), c.src["t"]["args"][0]
+            if nonempty_t is None:
                 continue
-            if c.src["t"]["f"]["name"] != "next":
-                continue
-            d, ch = q.origin_thru(b, c.src["t"]["args"][0], transparent=q.TRANSPARENT - {"std::ops::Try::branch"})
+            d, ch = q.origin_thru(b, src_op, transparent=(q.TRANSPARENT - {"std::ops::Try::branch"}) | {"std::vec::Vec::iter", "bitvec::macros::internal::core::slice::iter"})
             # d: Continue payload of the `?` on block_on(encode(..))
             if not any(isinstance(e, dict) and e.get("as") == "Continue" for e in d.get("proj", [])):
                 continue
-            # which encode? the Try::branch argument is the block_on result whose future is this encode call
-            src = d
-            if src["k"] == "call":
-                fd, _ = q.origin_thru(b, src["t"]["args"][0], transparent=set())
+            if d["k"] == "call":
+                fd, _ = q.origin_thru(b, d["t"]["args"][0], transparent=set())
                 if fd["k"] == "call" and fd["t"]["f"]["name"] == "block_on":
                     ed, _ = q.origin_thru(b, fd["t"]["args"][1], transparent=set())
                     if ed["k"] == "call" and ed["bb"] == i:
-                        some_t = c.target("Some")
-                        region = b.reachable([some_t], avoid=[c.target("None")])
-                        names = {tt["f"]["name"] for x in region for tt in [b.blocks[x]["term"]] if tt["k"] == "call" and tt.get("f")}
+                        region = b.reachable([nonempty_t])
                         dom = lambda nm: [x for x in region if b.blocks[x]["term"]["k"] == "call" and b.blocks[x]["term"].get("f")
-                                          and b.blocks[x]["term"]["f"]["name"] == nm and q.edge_dominates(b, c.bb, some_t, x)]
+                                          and b.blocks[x]["term"]["f"]["name"] == nm and q.edge_dominates(b, c.bb, nonempty_t, x)]
                         if dom("run_sat_process_unsolvable"):
                             handled = "unsolvable"
                         elif dom("undo_until"):
